@@ -3,6 +3,8 @@
 # working tree, runs the owning property's quick check, reverts, and records whether the
 # check reported a VIOLATION. Usage: tools/selftest.sh [ids...]  -> writes selftest/results.json
 cd /verif
+if [ -n "$(git -C /repo status --porcelain)" ]; then echo 'selftest: /repo has uncommitted changes; commit them first (the corpus reverts the working tree)'; exit 2; fi
+mkdir -p .work
 python3 - "$@" <<'PY'
 import json,subprocess,sys,os,glob
 idx=json.load(open('/verif/selftest/mutants/index.json'))
